@@ -164,6 +164,7 @@ class State:
         self.toptrace = []
         self.ghost = {}      # named ghost scalars (e.g. call log counters)
         self.names = {}      # source identifier -> ('reg'|'addr', register)
+        self.names_seen = set()   # identifiers bound at some point of this path (or of a merged arm)
         self.assumed_ids = set()
         self.pathconds = []
         self.stops = []
@@ -192,6 +193,7 @@ class State:
         s.toptrace = list(self.toptrace)
         s.ghost = dict(self.ghost)
         s.names = dict(self.names)
+        s.names_seen = set(getattr(self, 'names_seen', ()))
         s.assumed_ids = set(self.assumed_ids)
         s.pathconds = list(self.pathconds)
         s.stops = list(self.stops)
